@@ -1603,13 +1603,15 @@ def run(ck: Check) -> None:
     ]
     rng = ck.rng.fork("names")
     ug = uni_groups()
-    names = list(dict.fromkeys(G_WORDS + G_CAMEL + [gen_name(rng, ug) for _ in range(2000 if quick else 12000)]))
+    from . import enum_callers
+
+    # (spellings that only SANITISE to a reserved name tie the generated table of the enum resolver's own excludes to its behaviour)
+    reserved_spellings = [s for t in ("mro", "class", "_missing_", "__init__", "name") for s in enum_callers.spellings(t)]
+    names = list(dict.fromkeys(G_WORDS + G_CAMEL + reserved_spellings + [gen_name(rng, ug) for _ in range(2000 if quick else 12000)]))
     campaign_chars(ck, 3000 if quick else 60000)
     campaign_ident(ck, names)
     campaign_helpers(ck, names[: 1500 if quick else 12000])
     # (document level before function level: the first failing input of a run is the one written to the replay file)
-    from . import enum_callers
-
     enum_callers.campaign_names(ck, 250 if quick else 2500)
     campaign_valid(ck, names, "adversarial names x 3 resolvers x option vectors", CFGS[:6] if quick else CFGS)
     if quick and not hung(ck):
